@@ -31,6 +31,12 @@ CHECKS = {
 
 NOT_YET = {}
 
+# per-property fragments harness/props/cxx.manifest.json override the table
+for fn in sorted(os.listdir(os.path.join(VERIF, "harness", "props"))):
+    if fn.endswith(".manifest.json"):
+        frag = json.load(open(os.path.join(VERIF, "harness", "props", fn)))
+        CHECKS[fn[:3].upper()] = frag
+
 
 def main():
     props = [json.loads(l) for l in open(os.path.join(VERIF,
@@ -61,8 +67,8 @@ def main():
                            "model and its correspondence run)")})
     man = {
         "version": 1,
-        "setup_cmd": "cd /verif/coq && coq_makefile -f _CoqProject -o Makefile "
-                     "&& make -j16",
+        "setup_cmd": "cd /verif/coq && python3 ../harness/mkcoqproject.py && "
+                     "coq_makefile -f _CoqProject -o Makefile && make -j16",
         "hooks": {"guard": "ADCGEN_VERIF", "enable": "ADCGEN_VERIF=1 (set by "
                   "harness/check.py; no source hook exists so far)",
                   "baseline_off_cmd": BASELINE, "source_commits": [],
